@@ -7,7 +7,9 @@ C07 - translator tie: the chunking arithmetic of remote memory access is regener
   is the lookup `consts.address_length_dtype[(address % 4, size % 4)]` with its KeyError) = `read` / `write` chunks;
 * `MachineController.write_across_link` (word-alignment checks, `min(length, scp_data_length & ~3)` blocks, one
   `_send_scp(..., link_write, arg1=address, arg2=to_write, arg3=link, data=..., expected_args=0)` per block)
-  = `linkWrite`.
+  = `linkWrite`;
+* `MachineController.fill` (word-aligned: one fill command; otherwise `struct.pack('<B', data) * size` written with
+  `self.write`; recorded as events) = the model's `fill` plan.
 Each is a `while` loop; the theorems give the fuel that suffices (the number of bytes) and show that neither
 fuel exhaustion nor the KeyError is reachable.
 -/
@@ -355,6 +357,49 @@ theorem gen_write_across_link (buf addr fuel : Nat) (d : List Nat) (x y link : I
   simp only [Nat.cast_zero, List.drop_zero, List.nil_append, Nat.sub_zero] at e
   rw [e]
   rfl
+
+/-! ### `MachineController.fill` -/
+
+/-- what `fill` does, as events, for each plan of the model: one fill command; one `self.write` of `size` copies of
+the byte (the chunking of that write is `write`, see above); `struct.error` for a byte value that does not fit -/
+def fillPy (addr data size : Nat) (x y p : Int) : FillPlan → Except String (List PyFun.PyEvent)
+  | .fillCmd a w s => .ok [⟨"_send_scp", [x, y, p, ((cmdFill : Nat) : Int), (a : Int), (w : Int), (s : Int)], []⟩]
+  | .writes _ => .ok [⟨"write", [(addr : Int), x, y, p], bytesInt (List.replicate size data)⟩]
+  | .structError => .error "struct.error"
+
+theorem flatten_replicate_singleton (n : Nat) (v : Int) : (List.replicate n [v]).flatten = List.replicate n v := by
+  induction n with
+  | zero => rfl
+  | succ n ih => simp [List.replicate_succ, ih]
+
+/-- `fill` as written in the source: which of the two methods is used, the byte-range check of `struct.pack('<B', ..)`
+and the arguments of the call made are the model's `fill` -/
+theorem gen_fill (buf addr data size : Nat) (x y p : Int) :
+    PyFun.MachineController_fill (addr : Int) (data : Int) (size : Int) x y p
+      = fillPy addr data size x y p (fill buf addr data size) := by
+  unfold PyFun.MachineController_fill fill
+  simp only [Int.fmod_eq_emod_of_nonneg _ (by decide : (0 : Int) ≤ 4)]
+  by_cases hc : size % 4 ≠ 0 ∨ addr % 4 ≠ 0
+  · have hc' : ((size : Int) % 4 ≠ 0 ∨ (addr : Int) % 4 ≠ 0) := by omega
+    simp only [hc, hc', if_true]
+    rw [PyFun.pyStructPack]
+    swap
+    · intro hx; cases hx
+    by_cases hd : data < 256
+    · have : (0 : Int) ≤ (data : Int) ∧ ((data : Int)).toNat < 256 ^ PyFun.PyFmt.B.size := by
+        simp only [PyFun.PyFmt.size]; omega
+      have e : PyFun.pyLeBytes PyFun.PyFmt.B.size (data : Int) = [(data : Int)] := by
+        simp only [PyFun.PyFmt.size, PyFun.pyLeBytes, List.cons.injEq, and_true]; omega
+      simp only [this, hd, if_true, and_self, PyFun.pyStructPack, Except.map, e, Bool.false_eq_true, if_false,
+        List.append_nil, fillPy, Int.toNat_natCast, flatten_replicate_singleton, List.nil_append]
+      have h256 : data < 256 ^ PyFun.PyFmt.B.size := by simp only [PyFun.PyFmt.size]; omega
+      simp [bytesInt, h256, flatten_replicate_singleton]
+    · have : ¬ ((0 : Int) ≤ (data : Int) ∧ ((data : Int)).toNat < 256 ^ PyFun.PyFmt.B.size) := by
+        simp only [PyFun.PyFmt.size]; omega
+      simp only [this, hd, if_false, fillPy]
+  · have hc' : ¬ ((size : Int) % 4 ≠ 0 ∨ (addr : Int) % 4 ≠ 0) := by omega
+    simp only [hc, hc', if_false, fillPy, cmdFill, List.nil_append]
+    rfl
 
 /-- the hypotheses are satisfiable: a 5-byte write through a 4-byte buffer is two chunks -/
 example : (write 4 2 [1, 2, 3, 4, 5]).length = 2 ∧ (read 4 2 5).length = 2 := by decide
